@@ -12,14 +12,18 @@ package parquet
 //@ pred isWC(x) := dyn(x) == typeid("*parquet.writeCounter") && payload(x) != 0 && isBB(cast("*parquet.writeCounter", x).w)
 //@ pred asWC(x) := cast("*parquet.writeCounter", x)
 
+// (ghost: what an accumulator handed out last, so that WritePageHeader can be held to it)
 //@ iface Stats.NullCount
-//@   modifies nothing
+//@   modifies lastNull
+//@   ghost-exit lastNull := res
 //@ iface Stats.DistinctCount
 //@   modifies nothing
 //@ iface Stats.Min
-//@   modifies nothing
+//@   modifies lastMin
+//@   ghost-exit lastMin := res
 //@ iface Stats.Max
-//@   modifies nothing
+//@   modifies lastMax
+//@   ghost-exit lastMax := res
 
 // ---- write path
 
@@ -93,6 +97,8 @@ package parquet
 //@   modifies m, HA(m.rowGroups), heap("sch.ColumnMetaData"), heap("map[string]sch.ColumnChunk"), wfault, snk, ser
 //@   ensures[C09] err == nil ==> (wfault ==> old(wfault))
 // the header that reaches the sink states the sizes and the count it was given; the chunk grows by header + page
+// C12: the statistics in the header are the accumulator's, unaltered
+//@   ensures[C12] err == nil ==> hdrMin == lastMin && hdrMax == lastMax && hdrNull == lastNull
 //@   ensures[C02] snkPos >= old(snkPos) && snkKept(old(snkPos))
 //@   ensures[C02] err == nil ==> snkPos == old(snkPos) + hdrLen && hdrLen >= 0
 //@   ensures[C02] err == nil && i32(dataLen) && i32(compressedLen) && i32(count) ==> hdrComp == compressedLen && hdrUncomp == dataLen && hdrNV == count
